@@ -330,4 +330,70 @@ WRAP_ASSIGNS
 __CPROVER_ensures(WRAP_ONCE(NULL, input))
 ;
 #endif
+
+#ifdef VERIF_TU_JWKS
+/* ===================== C16: the list primitives as jwks.c uses them =====================
+ * LOCAL shape contracts -- they mention only the nodes a primitive touches, so they hold for
+ * keyrings of ANY length (unbounded; the walks over the whole list are the bounded C16 units):
+ *   jwks_new       an empty ring (head linked to itself), no error;
+ *   jwks_item_add  links the item between the current last node and the head, touching exactly
+ *                  four pointers: "loads append at the tail";
+ *   __item_free    unlinks exactly that node (its two neighbours now point at each other),
+ *                  releases its kid, key material and JSON once, and frees the item. */
+static jwk_set_t *jwks_new(void);
+static void __item_free(jwk_item_t *todel);
+extern ll_t *g_nb_prev, *g_nb_next;
+jwk_set_t *contract_C16_jwks_new(void)
+__CPROVER_assigns()
+__CPROVER_ensures(__CPROVER_return_value == NULL || (__CPROVER_is_fresh(__CPROVER_return_value, sizeof(jwk_set_t)) &&
+	__CPROVER_return_value->head.next == &__CPROVER_return_value->head && __CPROVER_return_value->head.prev == &__CPROVER_return_value->head &&
+	__CPROVER_return_value->error == 0 && __CPROVER_return_value->error_msg[0] == 0 && __CPROVER_return_value->error_msg[JWT_ERR_LEN - 1] == 0))
+;
+/* NOTE on preconditions over CYCLIC structures: cbmc dereferences through value sets, and a
+ * pointer whose value is only ASSUMED equal to the address of another object (requires p == &q)
+ * has none -- writes through it would land in a phantom object.  The units of jwks_item_add and
+ * __item_free therefore BUILD the neighbourhood of the node by assignment in their harness
+ * (units/defs.py: every shape the requires clause admits, chosen nondeterministically) and the
+ * requires clauses below restate it; ensures clauses dereference post-state pointers only. */
+int contract_C16_jwks_item_add(jwk_set_t *jwk_set, jwk_item_t *item)
+__CPROVER_requires(__CPROVER_rw_ok(jwk_set, sizeof(*jwk_set)) && __CPROVER_rw_ok(item, sizeof(*item)))
+/* the ring is empty (head linked to itself), or its last node is an item; either way the last node's successor is the head */
+__CPROVER_requires(__CPROVER_rw_ok(jwk_set->head.prev, sizeof(ll_t)) && jwk_set->head.prev->next == &jwk_set->head)
+__CPROVER_requires(jwk_set->head.prev != &item->node && jwk_set->head.next != &item->node)
+__CPROVER_assigns(item->node.next, item->node.prev, jwk_set->head.prev, jwk_set->head.prev->next)
+__CPROVER_ensures(__CPROVER_return_value == 0)
+__CPROVER_ensures(item->node.next == &jwk_set->head && jwk_set->head.prev == &item->node)
+__CPROVER_ensures(item->node.prev == __CPROVER_old(jwk_set->head.prev))
+/* (stated through item->node.prev, which the clause above identifies with the old last node) */
+__CPROVER_ensures(item->node.prev->next == &item->node)
+__CPROVER_ensures(__CPROVER_old(jwk_set->head.prev) != &jwk_set->head ==> jwk_set->head.next == __CPROVER_old(jwk_set->head.next))
+__CPROVER_ensures(__CPROVER_old(jwk_set->head.prev) == &jwk_set->head ==> jwk_set->head.next == &item->node)
+;
+void contract_item_free_provider(jwk_item_t *item)
+__CPROVER_requires(item != NULL && __CPROVER_rw_ok(item, sizeof(*item)))
+__CPROVER_assigns(item->pem, item->provider_data, item->provider)
+;
+#define ITEM_FREE_TAKE_ADDRESSES do { void *volatile p2 = (void *)contract_item_free_provider; (void)p2; } while (0)
+void contract_C16___item_free(jwk_item_t *todel)
+__CPROVER_requires(__CPROVER_rw_ok(todel, sizeof(*todel)))
+__CPROVER_requires(__CPROVER_is_fresh(jwt_ops, sizeof(*jwt_ops)) && __CPROVER_obeys_contract(jwt_ops->process_item_free, contract_item_free_provider))
+__CPROVER_requires(todel->provider != JWT_CRYPTO_OPS_ANY || todel->oct.key == NULL || __CPROVER_is_fresh(todel->oct.key, 1))
+__CPROVER_requires(todel->kid == NULL || __CPROVER_is_fresh(todel->kid, 1))
+__CPROVER_requires(todel->json == NULL || (__CPROVER_is_fresh(todel->json, sizeof(vj_t)) && todel->json->type >= JSON_OBJECT && todel->json->type <= JSON_NULL &&
+	todel->json->refcount >= 1 && todel->json->refcount < 1000 && todel->json->tracked == NULL))
+/* its neighbours (two different nodes, or one and the same: the head of a one-item ring) point at it */
+__CPROVER_requires(__CPROVER_rw_ok(todel->node.prev, sizeof(ll_t)) && __CPROVER_rw_ok(todel->node.next, sizeof(ll_t)))
+__CPROVER_requires(todel->node.prev->next == &todel->node && todel->node.next->prev == &todel->node)
+__CPROVER_requires(todel->node.prev != &todel->node && todel->node.next != &todel->node)
+__CPROVER_requires(g_nb_prev == todel->node.prev && g_nb_next == todel->node.next)
+__CPROVER_assigns(todel->oct.key, todel->kid, todel->json, todel->node.next, todel->node.prev, todel->pem, todel->provider,
+		  todel->node.prev->next, todel->node.next->prev;
+		  todel->json != NULL: __CPROVER_object_whole(todel->json))
+__CPROVER_frees(todel, todel->kid; todel->provider == JWT_CRYPTO_OPS_ANY: todel->oct.key)
+/* (the harness keeps the two neighbours in g_nb_prev / g_nb_next, assigned, so that they can be dereferenced here) */
+__CPROVER_ensures(g_nb_prev->next == g_nb_next && g_nb_next->prev == g_nb_prev)
+__CPROVER_ensures(__CPROVER_was_freed(todel))
+__CPROVER_ensures(__CPROVER_old(todel->kid) == NULL || __CPROVER_was_freed(__CPROVER_old(todel->kid)))
+;
+#endif
 #endif
